@@ -34,6 +34,7 @@ struct Marker<'a> {
     fn_probes: Vec<usize>,
     return_points: usize,
     ret_ty: Option<syn::Type>,
+    hoist_n: usize,
 }
 
 fn callee_key(e: &Expr) -> Option<(String, Vec<String>)> {
@@ -145,6 +146,23 @@ impl<'a> Marker<'a> {
         } else if let Some(Stmt::Expr(e, None)) = b.stmts.last_mut() { self.mark_tail(e); }
     }
 }
+// an expression that may be mentioned inside a spec context as it stands (no exec calls / macros / blocks)
+fn spec_safe(e: &Expr) -> bool {
+    match e {
+        Expr::Path(_) | Expr::Lit(_) => true,
+        Expr::Field(f) => spec_safe(&f.base),
+        Expr::Paren(p) => spec_safe(&p.expr),
+        Expr::Group(g) => spec_safe(&g.expr),
+        Expr::Tuple(t) => t.elems.iter().all(spec_safe),
+        Expr::Unary(u) => spec_safe(&u.expr),
+        Expr::Binary(b) => spec_safe(&b.left) && spec_safe(&b.right),
+        Expr::Reference(r) => spec_safe(&r.expr),
+        Expr::Cast(c) => spec_safe(&c.expr),
+        Expr::Struct(s) => s.fields.iter().all(|f| spec_safe(&f.expr)) && s.rest.is_none(),
+        Expr::Index(i) => spec_safe(&i.expr) && spec_safe(&i.index),
+        _ => false,
+    }
+}
 fn is_join_stmt(st: &Stmt) -> bool {
     match st { Stmt::Expr(e, _) => matches!(e, Expr::If(_) | Expr::Match(_) | Expr::While(_) | Expr::Loop(_) | Expr::ForLoop(_) | Expr::Block(_)), _ => false }
 }
@@ -188,14 +206,47 @@ impl<'a> VisitMut for Marker<'a> {
         visit_mut::visit_block_mut(self, b);
         let mut out: Vec<Stmt> = vec![];
         let n = b.stmts.len();
-        for (si, st) in b.stmts.drain(..).enumerate() {
+        for (si, mut st) in b.stmts.drain(..).enumerate() {
+            let stmt_start = out.len();
+            // rule H: when a hint anchor matches the top-level call of this statement, arguments that are not
+            // spec-safe (they contain calls) are hoisted into `let __hN = ARG;` in evaluation order, so that the
+            // template can mention them; the call then takes the bound values
+            {
+                let all: Vec<(String, String)> = self.spec.before_call.iter().chain(self.spec.after_call.iter()).cloned().collect();
+                let top: Option<&mut Expr> = match &mut st { Stmt::Expr(e, _) => Some(e), Stmt::Local(l) => l.init.as_mut().map(|i| &mut *i.expr), _ => None };
+                if let Some(e) = top {
+                    let matches_top = callee_key(e).map(|(k, _)| all.iter().any(|(p, _)| pat_matches(p, &k, e).is_some())).unwrap_or(false);
+                    let mentions_args = |t: &str| { let b = t.as_bytes(); (0..b.len().saturating_sub(1)).any(|i| b[i] == b'$' && b[i + 1].is_ascii_digit()) };
+                    let wants_args = callee_key(e).map(|(k, _)| all.iter().any(|(p, t)| pat_matches(p, &k, e).is_some() && mentions_args(t))).unwrap_or(false);
+                    if matches_top && wants_args {
+                        let args: Option<&mut syn::punctuated::Punctuated<Expr, syn::Token![,]>> = match e { Expr::MethodCall(mc) => Some(&mut mc.args), Expr::Call(c) => Some(&mut c.args), _ => None };
+                        if let Some(args) = args {
+                            for a in args.iter_mut() {
+                                if !spec_safe(a) && !matches!(a, Expr::Reference(_)) {
+                                    let id = quote::format_ident!("__h{}", self.hoist_n); self.hoist_n += 1;
+                                    let inner = a.clone();
+                                    out.push(parse_quote!(let #id = #inner;));
+                                    *a = parse_quote!(#id);
+                                }
+                            }
+                        }
+                    }
+                }
+            }
             let mut f = Finder { pats: &self.spec.before_call, found: vec![] };
             syn::visit::Visit::visit_stmt(&mut f, &st);
             let found_b = f.found;
             let mut f2 = Finder { pats: &self.spec.after_call, found: vec![] };
             syn::visit::Visit::visit_stmt(&mut f2, &st);
             let found_a = f2.found;
-            for (i, mut args, recv) in found_b { let t = self.spec.before_call[i].1.clone(); if let Some(r) = recv { args.push(format!("$recv={}", r)); } out.push(self.marker(&t, args, "before-call")); }
+            for (i, mut args, recv) in found_b {
+                let t = self.spec.before_call[i].1.clone();
+                if let Some(r) = recv { args.push(format!("$recv={}", r)); }
+                let b = t.as_bytes();
+                let mentions = (0..b.len().saturating_sub(1)).any(|i| b[i] == b'$' && b[i + 1].is_ascii_digit());
+                let mk = self.marker(&t, args, "before-call");
+                if mentions { out.push(mk); } else { out.insert(stmt_start, mk); }
+            }
             let is_tail = matches!(st, Stmt::Expr(_, None)) && si + 1 == n;
             let join = is_join_stmt(&st) && !is_tail;
             let letk = let_init_key(&st);
@@ -332,7 +383,7 @@ impl<'a> Gen<'a> {
             rules::alpha_rename(block, &mut self.rules);
             let mut hints = vec![];
             {
-                let mut mk = Marker { spec: &spec, loop_n: 0, hint_n: self.hint_base, hints: &mut hints, probes: self.probes, probe_n: &mut self.probe_n, fn_probes: vec![], return_points: 0, ret_ty: match &sig.output { syn::ReturnType::Type(_, t) if !matches!(**t, syn::Type::ImplTrait(_)) => Some((**t).clone()), _ => None } };
+                let mut mk = Marker { spec: &spec, loop_n: 0, hint_n: self.hint_base, hints: &mut hints, probes: self.probes, probe_n: &mut self.probe_n, fn_probes: vec![], return_points: 0, hoist_n: 0, ret_ty: match &sig.output { syn::ReturnType::Type(_, t) if !matches!(**t, syn::Type::ImplTrait(_)) => Some((**t).clone()), _ => None } };
                 mk.visit_block_mut(block);
                 let has_ret = !matches!(sig.output, syn::ReturnType::Default);
                 if has_ret { mk.mark_block_tail(block); }
